@@ -109,7 +109,8 @@ def run(rep, tier, seed):
     for i in range(n):
         # the first two volumes of every run: exactly maximal FAT12 / FAT16 volumes with a chain through the highest cluster number
         # the third and fourth: FAT32 volumes whose information sector stores a free count smaller than reality (0 / 2)
-        b = imgbuilder.Builder(rng, force_top={0: 12, 1: 16}.get(i), stale_count={2: 0, 3: 2}.get(i)).build()
+        # the fifth and sixth: fixed roots used up to their very last slot
+        b = imgbuilder.Builder(rng, force_top={0: 12, 1: 16}.get(i), stale_count={2: 0, 3: 2}.get(i), full_root=i in (4, 5)).build()
         path = os.path.join(cache, "img%d.txt" % i)
         open(path, "w").write(b.sparse_text())
         key = "fat%d bps%d spc%d fats%d %s" % (b.bits, b.bps, b.spc, b.fats, "mirror" if b.mirror else "active%d" % b.active)
@@ -121,11 +122,18 @@ def run(rep, tier, seed):
         dirs, files = [], []
         walk(b, b.root, [], dirs, files)
         dpath = rng.choice(dirs)[0]
+        if b.full_root:
+            # the root has no free slot: the new objects go into a sub-directory (there is one: see below), the victim is not in the root
+            sub = [d_ for d_ in dirs if d_[0]]
+            dpath = sub[0][0] if sub else dpath
         newf = "/".join(dpath + ["added by the library (long name).bin"])
         newd = "/".join(dpath + ["NEWDIR"])
         victim = rng.choice(files) if files and rng.chance(2, 3) else None
         if b.force_top:
             victim = [f for f in files if f[0][-1].upper() == "TOPCHAIN.BIN"][0]
+        if b.full_root:
+            inner = [f for f in files if len(f[0]) > 1]
+            victim = inner[0] if inner else None
         mut = ["create_file 0 %s 90" % hexs(newf), "write_pat 90 %d 3" % rng.range(1, 3 * b.cs), "drop_file 90",
                "create_dir 0 %s 0" % hexs(newd), "create_file 0 %s 91" % hexs(newd + "/x.txt"), "write_pat 91 10 1", "drop_file 91"]
         if victim:
